@@ -457,13 +457,33 @@ all_shapes()
 }
 
 bool
-enumerate(uint64_t idx, int /*tier*/, json& c)
+enumerate(uint64_t idx, int tier, json& c)
 {
   const auto& sh = all_shapes();
   if (idx >= sh.size() * 4)
     return false;
   const std::vector<int>& l = sh[idx / 4];
   const int variant = int(idx % 4);
+  // quick tier: every shape; all 4 (sign, real/complex) variants up to 2^12 elements, one rotating variant for the larger
+  // shapes (the O(N n) oracle dominates the cost there); thorough tier: all 4 variants of every shape
+  int total = 0;
+  for (int e : l)
+    total += e;
+#if defined(__has_feature)
+#  if __has_feature(address_sanitizer)
+  // sanitizer flavour (about 10x slower): shapes up to 2^10 elements only; the plain flavour enumerates everything
+  if (total > 10)
+    {
+      c = json();
+      return true;
+    }
+#  endif
+#endif
+  if (tier == 0 && total > 12 && variant != int((idx / 4) % 4))
+    {
+      c = json();
+      return true;
+    }
   c = json::object();
   c["kind"] = 0;
   c["d"] = int(l.size());
